@@ -15,7 +15,9 @@
    (the model's outcome of every operation and the whole session state are compared with the real
    provider).  Token values are abstract identifiers (minting order); the byte-level token formats
    are C04's.  No proofs in this file. *)
+From Coq Require Import String.
 From Verif Require Import Lib.Base Lib.PyStr.
+Open Scope string_scope.
 Open Scope Z_scope.
 
 Inductive tcls := Code | Access | Refresh | IdTok.
